@@ -272,6 +272,12 @@ def deepcopy_model(it: Interp, v: Any, memo: Optional[Dict[int, Any]] = None) ->
             if isinstance(g, Obj):
                 deepcopy_model(it, g, memo)
                 return memo.get(id(v), v)
+        hook = v.attrs.get("__deepcopy__")
+        if hook is not None and not isinstance(hook, (TV, Obj)):
+            # copy.deepcopy consults the instance's __deepcopy__ first
+            c = it.call_function(hook, [memo], {})
+            memo[id(v)] = c
+            return c
         c = Obj(v.cls_name, cls=v.cls, term=T("copy", (_term(v),)) if v.term is not None else None, open_attrs=v.open_attrs)
         memo[id(v)] = c
         for k, x in v.attrs.items():
